@@ -2,6 +2,7 @@
 
 import glob
 import hashlib
+import json
 import os
 import shutil
 import subprocess
@@ -28,7 +29,8 @@ RULE = (
     'and the raw C++ entry point with surplus bytes/bits. Oracle: textbook Berlekamp-Massey on '
     'integers (refs/lfsr_ref.bm_int), itself checked against the Gaussian-elimination definition '
     'on every sequence of length <= 14 (arm ref_validation). Arm exhaustive enumerates every '
-    'sequence of length 0..16 (quick) / 0..20 (thorough) in blocks of 512. Arm sequences draws '
+    'sequence of length 0..18 (quick) / 0..22 (thorough) in blocks of 512. Arm lengths walks every '
+    'length 0..1100 (thorough 0..2304) with four constructions each. Arm sequences draws '
     '(family, length, parameters) with Hypothesis; bulk bits come from SHAKE-256 of a 64-bit '
     'material integer; families: random, sparse, zero, one, periodic, lfsr(degree), pad (leading/'
     'trailing zero runs), jump (LFSR prefix of degree 0..40, complexity jump forced at bit 64k+63 '
@@ -136,10 +138,9 @@ def _classify(n, changes, disc63):
 
 
 def _nlabel(n):
-  if n <= 1100:
-    r = n % WORD
-    return 'n<=1100,n%%64=%s' % ('0' if r == 0 else '63' if r == 63 else '1' if r == 1 else 'other')
-  return 'n>1100' if n <= 1 << 14 else 'n>2^14'
+  if n <= 1151:
+    return 'n<=1151,n%%64=%02d' % (n % WORD)
+  return 'n=1152..2^14' if n <= 1 << 14 else 'n>2^14'
 
 
 # ---------------------------------------------------------------- arm: ref_validation
@@ -360,10 +361,12 @@ def _lengths(tier):
   near = st.builds(lambda k, r: max(0, WORD * k + r), st.integers(0, 17),
                    st.sampled_from([-1, 0, 1, 2, 62, 63]))
   small = st.integers(0, 1100)
+  # large lengths: log-uniform word count between 18 and big_top/64, any residue class
+  top_words = big_top // WORD
   big = st.one_of(
       st.integers(1101, 4096),
-      st.builds(lambda k, r: WORD * k + r, st.integers(18, big_top // WORD - 1),
-                st.sampled_from([0, 1, 63, 17, 40])),
+      st.builds(lambda e, r: min(big_top, WORD * min(top_words - 1, int(18 * 2 ** (e / 16))) + r),
+                st.integers(0, 16 * 7), st.sampled_from([0, 1, 63, 17, 40])),
       st.sampled_from([big_top, big_top - 1, big_top - 63]))
 
   @st.composite
@@ -432,6 +435,26 @@ def strat_sequences(tier):
       jump(), jump(), jump(),
       disc(), disc(), disc(),
   )
+
+
+# ---------------------------------------------------------------- arm: lengths (every length)
+
+def enum_lengths(tier):
+  top = 1100 if tier == 'quick' else 2304
+  for n in range(0, top + 1):
+    last_boundary_bit = WORD * ((n - 1) // WORD) - 1 if n > WORD else -1   # bit 63 of the word before the last
+    yield {'fam': 'random', 'n': n, 'm': n, 'g': 0}
+    if last_boundary_bit >= 0:
+      k = last_boundary_bit // WORD
+      yield {'fam': 'jump', 'n': n, 'm': n, 'g': 3, 'd': 0, 'k': k, 'delta': 0, 'tail': 'random'}
+      yield {'fam': 'jump', 'n': n, 'm': n + 1, 'g': 0, 'd': 1 + n % 23, 'k': k, 'delta': 0,
+             'tail': 'random'}
+      # early jump, then a discrepancy at bit 63 of every later word, dense burst at the end
+      p0 = n // 3
+      ev = [[p0 // WORD, p0 % WORD]] + [[w, 63] for w in range(p0 // WORD + 1, n // WORD + 1)]
+      yield {'fam': 'disc', 'n': n, 'm': n, 'g': 0, 'ev': ev, 'burst': [[max(0, n - 40), 40]]}
+    else:
+      yield {'fam': 'jump', 'n': n, 'm': n, 'g': 2, 'd': 0, 'k': 0, 'delta': 0, 'tail': 'random'}
 
 
 # ---------------------------------------------------------------- arm: native_range
@@ -538,7 +561,7 @@ def _check_count_row(n, row):
     total += c
     x = libcall(bm.LfsrLogProbability, n, m)
     # 2^x must be row[m] / 2^n; every true count is a power of two
-    if type(x) is not int or x + n < 0 or (1 << (x + n)) != row[m]:
+    if type(x) is not int or row[m].bit_count() != 1 or x + n != row[m].bit_length() - 1:
       raise Violation('lfsrlogprobability:wrong-value', n=n, m=m, got=repr(x)[:80],
                       expected_count=row[m])
   if total != 1 << n:
@@ -686,9 +709,11 @@ def enum_fuzz(tier):
     seed = int(os.environ.get('VERIF_SEED', '1'))
   except ValueError:
     seed = 1
-  runs = 40000 if tier == 'quick' else 6000000
-  yield {'seed': derive_seed(seed, 'C14', 'fuzz') % (2**31 - 1) + 1, 'runs': runs,
-         'max_len': 210 if tier == 'quick' else 700}
+  # about 1.3k executions/s on a loaded machine (ASan+UBSan, three implementations per input)
+  jobs, runs = (1, 25000) if tier == 'quick' else (12, 400000)
+  for j in range(jobs):
+    yield {'seed': derive_seed(seed, 'C14', 'fuzz', j) % (2**31 - 1) + 1, 'runs': runs,
+           'max_len': 210 if tier == 'quick' else (210, 400, 700)[j % 3]}
 
 
 def run_fuzz(desc):
@@ -718,8 +743,18 @@ def run_fuzz(desc):
                if 'MISMATCH' in l or 'ERROR' in l or 'runtime error' in l or 'SUMMARY' in l]
       detail = {'input_hex': data.hex(), 'log': lines[:6]}
       if len(data) >= 2:
+        # the crashing input as a ready-made replay for arm `single` (the violation record
+        # abbreviates long strings, so the full input is stored next to it)
         n, body = _fuzz_decode(data)
-        detail['replay_single'] = {'arm': 'single', 'desc': {'n': n, 'hex': body.hex()}}
+        rp = {'property': ID, 'arm': 'single', 'desc': {'n': n, 'hex': body.hex()},
+              'clause': 'fuzz:' + kind, 'detail': {'from': 'libFuzzer', 'fuzz_desc': desc}}
+        vdir = os.path.join(boot.VERIF, 'out', 'violations', ID)
+        os.makedirs(vdir, exist_ok=True)
+        path = os.path.join(vdir, 'single-fuzz-%s.json' % hashlib.sha256(data).hexdigest()[:14])
+        with open(path, 'w') as f:
+          json.dump(rp, f, indent=1)
+        detail['replay_single'] = path
+        detail['n'] = n
       raise Violation('fuzz:' + kind, **detail)
     if r.returncode != 0:
       raise RuntimeError('fuzzer exited with %d without an artifact: %s' %
@@ -734,14 +769,17 @@ def run_fuzz(desc):
 
 
 ARMS = [
-    Arm('fuzz', run_fuzz, enumerate=enum_fuzz, shards=1, weight=10.0, budget=(600, 14400),
+    Arm('fuzz', run_fuzz, enumerate=enum_fuzz, shards=12, weight=10.0, budget=(600, 14400),
         doc='libFuzzer over both C++ variants + in-driver reference, ASan/UBSan'),
     Arm('sequences', run_sequences, strategy=strat_sequences, quick=40000, thorough=600000,
         budget=(100, 1500), weight=5.0,
         doc='constructed and random sequences, all implementations vs reference BM'),
+    Arm('lengths', run_sequences, enumerate=enum_lengths, exhaustive=True,
+        doc='every length 0..1100 (thorough 0..2304): random, forced jump at the last word boundary, '
+            'discrepancy at bit 63 of every word'),
     Arm('exhaustive', run_exhaustive, enumerate=enum_exhaustive, exhaustive=True,
         budget=(600, 7200), weight=3.0,
-        doc='every sequence of length 0..16 / 0..20 through every implementation'),
+        doc='every sequence of length 0..18 / 0..22 through every implementation'),
     Arm('counts', run_counts, enumerate=enum_counts, exhaustive=True, budget=(600, 7200),
         weight=2.0,
         doc='LfsrCount / LfsrLogProbability vs brute force (n<=16/20) and exact DP (n<=4096)'),
